@@ -37,6 +37,9 @@
   many hosts streaming at once                              relay_lossless_any_interleaving (+ _index_)
   -N                                                        relay_verbatim_with_N
   the loop runs until BOTH streams are at EOF               poll_loop_left_only_at_eof_of_both, handler_closes_exactly_at_eof
+  a ready descriptor is read in that iteration (xpoll.c's   ready_descriptor_gets_its_handler, silent_descriptor_not_handled,
+    translation + dsh.c's mask), EINTR retried by the loop    interrupted_poll_is_retried, xpoll_contract,
+    handler order (learnt: stdout's first in dsh.c)            one_iteration_stdout_before_stderr, one_iteration_swapped_stderr_first
   a worker is done only after its output is delivered (C03) worker_done_has_delivered_everything, worker_done_equals_runStream
   a host that is given up on (timeout, poll error)          abandoned_stream_relays_what_was_read, worker_delivers_what_it_read
   a host whose command never starts                         unstarted_host_writes_nothing
@@ -44,14 +47,18 @@
   domain: NUL-free, lines <= 128 KiB, no marker             dom_in_words; sharpness: beyond_domain_drops_head,
                                                               nul_cuts_record, extractRc_with_marker_cuts, marker_lookalikes_untouched
   the constants the proof leans on (cbuf_create arguments,  growthOk_generated(_assert), growth_from_4096_ok,
-    CBUF_CHUNK, bookkeeping cells)                            growth_from_1024_not_ok, short_growth_step_drops (necessity)
+    CBUF_CHUNK, bookkeeping cells)                            growth_from_1024_not_ok, short_growth_step_drops (necessity);
+                                                              Relay/GrowthUniform.lean `growthOk_of_le`: every 1..871 cells, no evaluation
 
   NOT PROVED (correspondence / real runs only): when the bytes of a stdio call reach the descriptor is the
   stdio layer's business (Relay/Stdio.lean, Props/C06 `records_reach_consumer_any_schedule`: assumption that
   glibc behaves like that writer); what a transport child does to inherited stdio buffers (seeded C06-5: must
   be nothing, `_exit`); read(2) errors other than EAGAIN/EINTR (the handler prints a diagnostic and closes the
-  descriptor: outside the property's domain, exercised by the scheduler part); `xpoll.c` itself and the kernel
-  (the LTS takes their behaviour as events: any subset reported, any cap, any order); threads (one worker per
+  descriptor: outside the property's domain, exercised by the scheduler part); the kernel's poll(2) (the LTS takes
+  its answers as events: any subset reported, any cap, any order; `XPoll.xpoll`/`loopIter` model what xpoll.c -- its
+  HAVE_POLL flavour; the select() flavour is not compiled here and not modelled -- and the loop body make of an
+  answer, run against the real xpoll.c over a scripted poll(2) and against every poll return of the real
+  `_rsh_thread` under the scheduler); threads (one worker per
   host, per-call atomicity of stdio: Props/C06); the hand-written model's fidelity to dsh.c/err.c as such
   (differential execution on every run, incl. `handleCap` under scripted read faults and `_parallel_copy`).
 -/
@@ -61,6 +68,7 @@ import PdshVerif.Relay.Simulation
 import PdshVerif.Relay.DomIff
 import PdshVerif.Relay.IndexSim
 import PdshVerif.Relay.Poll
+import PdshVerif.Relay.XPoll
 
 namespace PdshVerif.C05
 open PdshVerif.Relay
@@ -581,6 +589,111 @@ theorem read_error_keeps_what_was_read {β : Type} (s : Stream β) (rc : Int) :
     (handleFail s rc).1 = -1 ∧ (handleFail s rc).2.1.buf = s.buf ∧ (handleFail s rc).2.1.pipe = s.pipe ∧
     (handleFail s rc).2.1.closed = true ∧ (handleFail s rc).2.2 = (rc, [diag]) :=
   ⟨rfl, rfl, rfl, rfl, rfl⟩
+
+/-! ### `xpoll()` and ONE ITERATION of the loop (Relay/XPoll.lean): where the events of `pollStep` come from
+
+  The LTS above takes "which descriptors an xpoll return reports" as the environment's choice.  `XPoll.xpoll`
+  (the HAVE_POLL flavour of src/common/xpoll.c) and `XPoll.loopIter` (the loop body of `_rsh_thread` up to the
+  handler calls) say how that choice comes out of what poll(2) answers; `Iter.toPEv` is the LTS event.  Since
+  the theorems above hold for EVERY event list, they hold for every sequence of kernel answers. -/
+
+/-- A DESCRIPTOR THE KERNEL REPORTS READABLE, IN ERROR OR HUNG UP GETS ITS HANDLER CALLED in that iteration -- and no
+    other does: stdout's iff POLLIN|POLLERR|POLLHUP on entry 0, stderr's iff -S and the same on entry 1 -- whatever
+    stale `revents` the array held and whatever count poll(2) returned.  (So data and EOF -- a pipe's EOF is
+    POLLHUP without POLLIN -- are both picked up; xpoll's translation POLLHUP -> XPOLLERR and dsh.c's mask
+    `XPOLLREAD|XPOLLERR` are both needed for that.) -/
+theorem ready_descriptor_gets_its_handler (sopt tAfter : Bool) (fdO fdE : Int) (staleO staleE : Nat) (rv : Int)
+    (hrv : rv ≠ -1) (r0 r1 : Nat) (rest : List Nat) (errFirst : Bool) (capO capE : Option Nat) :
+    (XPoll.loopIter sopt false tAfter fdO fdE staleO staleE (.ok rv (r0 :: r1 :: rest))).1.toPEv errFirst capO capE =
+      some ((if errFirst then PEv.pollRev else PEv.poll)
+        (if XPoll.has r0 Gen.XP_POLLIN || XPoll.has r0 Gen.XP_POLLERR || XPoll.has r0 Gen.XP_POLLHUP
+          then some capO else none)
+        (if sopt && (XPoll.has r1 Gen.XP_POLLIN || XPoll.has r1 Gen.XP_POLLERR || XPoll.has r1 Gen.XP_POLLHUP)
+          then some capE else none)) := by
+  rw [XPoll.loopIter_dispatch sopt tAfter fdO fdE staleO staleE rv hrv r0 r1 rest]
+  cases errFirst <;> rfl
+
+/-- a descriptor the kernel says nothing about (in particular one the worker has closed: fd = -1, which poll(2)
+    skips) is not handled -/
+theorem silent_descriptor_not_handled (sopt tAfter : Bool) (fdO fdE : Int) (staleO staleE : Nat) (rv : Int)
+    (hrv : rv ≠ -1) (capO capE : Option Nat) :
+    (XPoll.loopIter sopt false tAfter fdO fdE staleO staleE (.ok rv [0, 0])).1.toPEv false capO capE =
+      some (.poll none none) := by
+  rw [ready_descriptor_gets_its_handler sopt tAfter fdO fdE staleO staleE rv hrv 0 0 [] false capO capE]
+  cases sopt <;> rfl
+
+/-- AN INTERRUPTED POLL IS RETRIED -- by the loop, not by xpoll (which hands -1/EINTR through) -- unless the
+    command has timed out; every other poll error, and a timeout, end the loop (the worker gives the host up:
+    `abandoned_stream_relays_what_was_read`) -/
+theorem interrupted_poll_is_retried (sopt tAfter : Bool) (fdO fdE : Int) (staleO staleE : Nat) (e : Nat)
+    (errFirst : Bool) (capO capE : Option Nat) :
+    (XPoll.loopIter sopt false tAfter fdO fdE staleO staleE (.fail e)).1.toPEv errFirst capO capE =
+      if e = Gen.XP_EINTR ∧ tAfter = false then some .eintr else none := by
+  rw [XPoll.loopIter_error]
+  by_cases he : e = Gen.XP_EINTR <;> cases tAfter <;> simp [he, XPoll.Iter.toPEv]
+
+/-- WITHIN ONE ITERATION THE STDOUT HANDLER RUNS BEFORE THE STDERR HANDLER: the worker's stdio calls of one
+    `.poll` event are those of the stdout handler (if reported), then those of the stderr handler (if reported) --
+    the order the correspondence observes on the real `_rsh_thread` (reads after each poll return) -/
+theorem one_iteration_stdout_before_stderr {β : Type} (ops : BufOps β) (cfg : Cfg) (host : Bytes) (w : Worker β)
+    (o e : Option (Option Nat)) :
+    ∃ a b : List Em, (pollStep ops cfg host w (.poll o e)).log =
+      w.log ++ a.map (fun x => (false, x)) ++ b.map (fun x => (true, x)) := by
+  by_cases hl : w.loopLeft = true
+  · exact ⟨[], [], by simp [pollStep, hl]⟩
+  · simp only [pollStep, hl, Bool.false_eq_true, ↓reduceIte]
+    cases o with
+    | none =>
+      cases e with
+      | none => exact ⟨[], [], by simp [Worker.onReported]⟩
+      | some ce => exact ⟨[], _, by simp only [Worker.onReported, Worker.on, ↓reduceIte, List.map_nil, List.append_nil]; rfl⟩
+    | some co =>
+      cases e with
+      | none => exact ⟨_, [], by simp only [Worker.onReported, Worker.on, Bool.false_eq_true, ↓reduceIte, List.map_nil, List.append_nil]; rfl⟩
+      | some ce => exact ⟨_, _, by simp only [Worker.onReported, Worker.on, Bool.false_eq_true, ↓reduceIte]; rfl⟩
+
+/-- ... and with the two blocks swapped (a harmless reordering: `.pollRev`) stderr's handler runs first.  Every
+    theorem of this section quantifies over ALL event lists, `.poll` and `.pollRev` mixed at will: the property does
+    not depend on the order; the correspondence learns it from the code under test and checks it at every poll
+    return -/
+theorem one_iteration_swapped_stderr_first {β : Type} (ops : BufOps β) (cfg : Cfg) (host : Bytes) (w : Worker β)
+    (o e : Option (Option Nat)) :
+    ∃ a b : List Em, (pollStep ops cfg host w (.pollRev o e)).log =
+      w.log ++ b.map (fun x => (true, x)) ++ a.map (fun x => (false, x)) := by
+  by_cases hl : w.loopLeft = true
+  · exact ⟨[], [], by simp [pollStep, hl]⟩
+  · simp only [pollStep, hl, Bool.false_eq_true, ↓reduceIte]
+    cases o with
+    | none =>
+      cases e with
+      | none => exact ⟨[], [], by simp [Worker.onReported]⟩
+      | some ce => exact ⟨[], _, by simp only [Worker.onReported, Worker.on, ↓reduceIte, List.map_nil, List.append_nil]; rfl⟩
+    | some co =>
+      cases e with
+      | none => exact ⟨_, [], by simp only [Worker.onReported, Worker.on, Bool.false_eq_true, ↓reduceIte, List.map_nil, List.append_nil]; rfl⟩
+      | some ce => exact ⟨_, _, by simp only [Worker.onReported, Worker.on, Bool.false_eq_true, ↓reduceIte]; rfl⟩
+
+/-- xpoll's contract as far as callers rely on it: invalid arguments never reach poll(2) (-1/EINVAL, array
+    untouched); a failing poll(2) is handed through with the kernel's errno, NOT retried; success hands the kernel's
+    count through with errno = 0; the timeout reaches poll(2) unchanged -/
+theorem xpoll_contract (xs : List XPoll.XFd) (nfds timeout : Int) :
+    (nfds ≤ 0 → ∀ k, (XPoll.xpoll (some xs) nfds timeout k).rv = -1 ∧
+        (XPoll.xpoll (some xs) nfds timeout k).errno = Gen.XP_EINVAL ∧
+        (XPoll.xpoll (some xs) nfds timeout k).passed = none ∧ (XPoll.xpoll (some xs) nfds timeout k).xfds = xs) ∧
+    (0 < nfds → ∀ e, (XPoll.xpoll (some xs) nfds timeout (.fail e)).rv = -1 ∧
+        (XPoll.xpoll (some xs) nfds timeout (.fail e)).errno = e) ∧
+    (0 < nfds → ∀ rv revs, (XPoll.xpoll (some xs) nfds timeout (.ok rv revs)).rv = rv ∧
+        (XPoll.xpoll (some xs) nfds timeout (.ok rv revs)).errno = 0) ∧
+    (0 < nfds → ∀ k, ∃ p, (XPoll.xpoll (some xs) nfds timeout k).passed = some (p, timeout)) :=
+  XPoll.xpoll_rv_errno xs nfds timeout
+
+/-- non-vacuity: data on stdout + hang-up on stderr under -S: both handlers, stdout's first; without -S only
+    stdout's; EOF of a pipe (POLLHUP alone) on stdout is handled; EINTR is retried -/
+example : (XPoll.loopIter true false false 5 6 7 7 (.ok 2 [Gen.XP_POLLIN, Gen.XP_POLLHUP])).1.calls false = [false, true] ∧
+    (XPoll.loopIter true false false 5 6 7 7 (.ok 2 [Gen.XP_POLLIN, Gen.XP_POLLHUP])).1.calls true = [true, false] ∧
+    (XPoll.loopIter false false false 5 (-1) 0 0 (.ok 2 [Gen.XP_POLLIN, Gen.XP_POLLHUP])).1.calls false = [false] ∧
+    (XPoll.loopIter true false false 5 6 0 0 (.ok 1 [Gen.XP_POLLHUP, 0])).1.calls false = [false] ∧
+    (XPoll.loopIter true false false 5 6 0 0 (.fail Gen.XP_EINTR)).1 = .again := by decide
 
 /-! ### outside the domain: what the code does with lines over 128 KiB and with NUL bytes
 
